@@ -71,6 +71,18 @@ type Case struct {
 	MITM    string   `json:"mitm"`
 	CACerts []string `json:"cacerts,omitempty"`
 
+	// UpstreamTLS: the upstream proxy is reached over TLS (--proxy https://…, --insecure)
+	UpstreamTLS bool `json:"upstream_tls,omitempty"`
+	// Stall: the fault phase also injects stalls (needs a short --http-response-header-timeout)
+	Stall bool `json:"stall,omitempty"`
+
+	// kind "startfail": the configuration is syntactically plausible but start-up fails
+	// (see startFaults in startfail.go); FaultIndex = entry of a slice flag the fault sits in,
+	// FaultVariant selects among the shapes of one fault
+	StartFault   string `json:"start_fault,omitempty"`
+	FaultIndex   int    `json:"fault_index,omitempty"`
+	FaultVariant int    `json:"fault_variant,omitempty"`
+
 	Secrets [2]SecretSet `json:"secrets"`
 }
 
@@ -128,6 +140,13 @@ func genFileStyle(r *core.Rand) string {
 }
 
 func genCase(r *core.Rand, i int) *Case {
+	c := genConfig(r, i)
+	genSecrets(r, c)
+	return c
+}
+
+// genConfig draws the public part of a configuration.
+func genConfig(r *core.Rand, i int) *Case {
 	c := &Case{Kind: "run", ID: fmt.Sprintf("%04d-%08x", i, uint32(r.U64()))}
 	c.Level = core.Pick(r, []string{"error", "info", "info", "debug", "debug"})
 	c.Format = core.Pick(r, []string{"text", "json"})
@@ -182,6 +201,16 @@ func genCase(r *core.Rand, i int) *Case {
 	for n := r.Intn(3); n > 0 && r.Chance(60); n-- {
 		c.CACerts = append(c.CACerts, genFileStyle(r))
 	}
+	c.UpstreamTLS = c.Upstream != "none" && r.Chance(25)
+	if c.UpstreamTLS {
+		c.ProxyScheme = true
+	}
+	c.Stall = r.Chance(20)
+	return c
+}
+
+// genSecrets draws the two secret assignments of a configuration.
+func genSecrets(r *core.Rand, c *Case) {
 	for k := 0; k < 2; k++ {
 		s := &c.Secrets[k]
 		s.BasicAuth = genSecret(r, true)
@@ -200,7 +229,6 @@ func genCase(r *core.Rand, i int) *Case {
 			s.CASeeds = append(s.CASeeds, r.U64())
 		}
 	}
-	return c
 }
 
 // ---- key material ----
@@ -264,6 +292,7 @@ type plan struct {
 	Settings []setting
 	Secrets  []secretItem
 	// resolved endpoints
+	OriginAddr, UpstreamAddr   string
 	UpstreamUser, UpstreamPass string
 	UpstreamAuth               string // expected Proxy-Authorization at the upstream ("" if none)
 	OriginAuth                 string // expected Authorization at the origin ("" if none)
@@ -315,11 +344,17 @@ func envName(flag string) string {
 	return "FORWARDER_" + strings.ToUpper(strings.ReplaceAll(flag, "-", "_"))
 }
 
+// endpoints are the addresses a run's configuration points at: its own fault fronts (front.go) in
+// front of the shared origin and upstream proxy.
+type endpoints struct {
+	Origin, Upstream string
+}
+
 // assemble turns a case and one of its secret assignments into a concrete invocation.
 // dir is the run directory; paddr/aaddr are the listen addresses to request.
-func assemble(c *Case, k int, g *rig, dir, paddr, aaddr string) *plan {
+func assemble(c *Case, k int, ep endpoints, dir, paddr, aaddr string) *plan {
 	s := c.Secrets[k]
-	p := &plan{Files: map[string][]byte{}}
+	p := &plan{Files: map[string][]byte{}, OriginAddr: ep.Origin, UpstreamAddr: ep.Upstream}
 	add := func(flag string, slice bool, raws ...string) {
 		p.Settings = append(p.Settings, setting{Flag: flag, Slice: slice, Raws: raws})
 	}
@@ -336,7 +371,7 @@ func assemble(c *Case, k int, g *rig, dir, paddr, aaddr string) *plan {
 		}
 	}
 	if c.Upstream != "none" {
-		v := g.upstreamAddr
+		v := faultyProxyHost(c, ep.Upstream)
 		if c.Upstream == "userinfo" {
 			v = rawUser(*c.UpstreamUser, s.Proxy) + "@" + v
 			p.UpstreamUser = c.UpstreamUser.User
@@ -346,7 +381,12 @@ func assemble(c *Case, k int, g *rig, dir, paddr, aaddr string) *plan {
 			}
 			p.UpstreamAuth = basic(p.UpstreamUser, p.UpstreamPass)
 		}
-		if c.ProxyScheme {
+		switch {
+		case c.StartFault == "proxy-bad-scheme":
+			v = []string{"ftp", "socks4", "htp"}[c.FaultVariant%3] + "://" + v
+		case c.UpstreamTLS:
+			v = "https://" + v
+		case c.ProxyScheme:
 			v = "http://" + v
 		}
 		add("proxy", false, v)
@@ -357,9 +397,9 @@ func assemble(c *Case, k int, g *rig, dir, paddr, aaddr string) *plan {
 			var addr string
 			switch cr.Target {
 			case "origin":
-				addr = g.originAddr
+				addr = ep.Origin
 			case "upstream":
-				addr = g.upstreamAddr
+				addr = ep.Upstream
 			default:
 				addr = "127.0.0.1:9"
 			}
@@ -371,6 +411,14 @@ func assemble(c *Case, k int, g *rig, dir, paddr, aaddr string) *plan {
 				port = "*"
 			case "global":
 				h, port = "*", "*"
+			}
+			if i == c.FaultIndex {
+				switch c.StartFault {
+				case "cred-bad-host":
+					h = []string{"bad_host!", "exa mple.com", "-x-.example", "host/path"}[c.FaultVariant%4]
+				case "cred-bad-port":
+					port = []string{"99999", "80x", "-1", ""}[c.FaultVariant%4]
+				}
 			}
 			raws = append(raws, rawUser(cr.User, s.Creds[i])+"@"+h+":"+port)
 			pw := ""
@@ -398,23 +446,29 @@ func assemble(c *Case, k int, g *rig, dir, paddr, aaddr string) *plan {
 		}
 	}
 	if c.TLSCert != "none" {
-		cert, key := keyPair(s.TLSSeed, false)
+		cert, key := faultyPair(c, "tls", s.TLSSeed, false)
 		fileFlag("tls-cert-file", c.TLSCert, "tls-cert.pem", cert, false)
 		fileFlag("tls-key-file", c.TLSKey, "tls-key.pem", key, true)
 	}
 	if c.MITM != "none" {
-		cert, key := keyPair(s.MITMSeed, true)
+		cert, key := faultyPair(c, "mitm", s.MITMSeed, true)
 		fileFlag("mitm-cacert-file", c.MITM, "mitm-cacert.pem", cert, false)
 		fileFlag("mitm-cakey-file", c.MITM, "mitm-cakey.pem", key, true)
 	}
 	if len(c.CACerts) > 0 {
 		var raws []string
 		for i, st := range c.CACerts {
-			cert, _ := keyPair(s.CASeeds[i], true)
+			cert, key := keyPair(s.CASeeds[i], true)
+			private := false
+			if c.StartFault == "cacert-not-pem" && i == c.FaultIndex {
+				// variant 2: the private key pasted into the CA slot
+				private = c.FaultVariant%5 == 2
+				cert = notPEM(cert, key, c.FaultVariant, s.CASeeds[i])
+			}
 			raw, payload := fileValue(st, fmt.Sprintf("ca-%d.pem", i), cert, dir, p.Files)
 			raws = append(raws, raw)
 			if payload != "" {
-				p.Secrets = append(p.Secrets, secretItem{Flag: "cacert-file", Index: i, Secret: payload, PEM: cert})
+				p.Secrets = append(p.Secrets, secretItem{Flag: "cacert-file", Index: i, Secret: payload, PEM: cert, Private: private})
 			}
 		}
 		add("cacert-file", true, raws...)
@@ -429,6 +483,20 @@ func assemble(c *Case, k int, g *rig, dir, paddr, aaddr string) *plan {
 	}
 	if c.TLSCert != "none" {
 		p.Args = append(p.Args, "--protocol", "https")
+	}
+	if c.MITM != "none" || c.UpstreamTLS {
+		// the fault fronts present a throw-away certificate
+		p.Args = append(p.Args, "--insecure")
+	}
+	if c.Stall {
+		p.Args = append(p.Args, "--http-response-header-timeout", stallTimeout.String())
+	}
+	switch c.StartFault {
+	case "pac-unparsable":
+		js := []string{"function FindProxyForURL(url, host) { return (((; }", "this is not a PAC script", "function FindProxyForURL(url, host) { return DIRECT"}[c.FaultVariant%3]
+		p.Args = append(p.Args, "--pac", "data:base64,"+base64.StdEncoding.EncodeToString([]byte(js)))
+	case "pac-and-proxy":
+		p.Args = append(p.Args, "--pac", "data:base64,"+base64.StdEncoding.EncodeToString([]byte(`function FindProxyForURL(url, host) { return "DIRECT"; }`)))
 	}
 	p.Env = []string{"PATH=/usr/bin:/bin", "HOME=" + dir, "GOMAXPROCS=4"}
 	fileVals := map[string]any{}
